@@ -1,15 +1,63 @@
 #!/usr/bin/env python3
-"""Resolve a merge conflict in known_findings.json: union of ours and theirs by (property,key)."""
-import json, subprocess, sys
-ours = json.loads(subprocess.check_output(["git", "show", "HEAD:known_findings.json"]))
-theirs = json.loads(subprocess.check_output(["git", "show", sys.argv[1] + ":known_findings.json"]))
-seen, out = {}, []
-for f in ours.get("findings", []) + theirs.get("findings", []):
-    k = (f["property"], f["key"])
-    if k in seen:
-        out[seen[k]] = f  # theirs (later) wins: status updates travel with the unit branch
-    else:
-        seen[k] = len(out); out.append(f)
-ours["findings"] = out
-json.dump(ours, open("known_findings.json", "w"), indent=1)
-print(len(out), "findings")
+"""known_findings.json merge policy: a unit branch `unit-Cxx` owns the entries of property Cxx
+(its version replaces ours wholesale); every other entry is taken from ours.
+Usage: merge_known.py <branch> [--rebuild]  (--rebuild: recompute every property from its branch)."""
+import json, subprocess, sys, re
+
+def show(ref):
+    try:
+        return json.loads(subprocess.check_output(["git", "show", ref + ":known_findings.json"], stderr=subprocess.DEVNULL))
+    except Exception:
+        return {"findings": []}
+
+def own(branch, cur):
+    m = re.search(r"unit-(C\d+)", branch)
+    if not m:
+        return cur
+    pid = m.group(1)
+    theirs = [f for f in show(branch).get("findings", []) if f["property"] == pid]
+    if not theirs and not any(f["property"] == pid for f in cur["findings"]):
+        return cur
+    if not theirs:
+        # branch has no entries for its property: it withdrew them all
+        pass
+    cur["findings"] = [f for f in cur["findings"] if f["property"] != pid] + theirs
+    return cur
+
+cur = show("HEAD")
+if "--rebuild" in sys.argv:
+    brs = subprocess.check_output(["git", "branch", "--list", "unit-C*", "--format=%(refname:short)"], text=True).split()
+    for b in sorted(brs):
+        if re.fullmatch(r"unit-C\d+", b) and subprocess.call(["git", "merge-base", "--is-ancestor", b, "HEAD"]) == 0:
+            cur = own(b, cur)
+else:
+    cur = own(sys.argv[1], cur)
+cur["findings"].sort(key=lambda f: (f["property"], f["status"], f["key"]))
+json.dump(cur, open("known_findings.json", "w"), indent=1)
+print(len(cur["findings"]), "findings")
+
+# fill in the /repo commit of every fixed entry from fixes/commits.json
+import os
+cj = os.path.join(os.path.dirname(os.path.abspath(__file__)), "..", "fixes", "commits.json")
+if os.path.exists(cj):
+    c = json.load(open(cj))
+    d = json.load(open("known_findings.json"))
+    for e in c.get("extra_findings", []):
+        if not any(f["property"] == e["property"] and f["key"] == e["key"] for f in d["findings"]):
+            d["findings"].append(e)
+    for f in d["findings"]:
+        for prop, sub, status, patch in c.get("overrides", []):
+            if f["property"] == prop and sub in f["key"] and f.get("status") != status:
+                f["status"] = status
+                f.setdefault("line", "fixed: property=%s COMMIT %s" % (prop, f.get("description", "")[:240]))
+        if f.get("status") != "fixed":
+            continue
+        for prop, sub, patch in c["rules"]:
+            if f["property"] == prop and sub in f["key"]:
+                f["commit"] = c["hashes"][patch]
+                f["line"] = f.get("line", "fixed: property=%s COMMIT %s" % (prop, f.get("description", "")[:200])).replace("COMMIT", c["hashes"][patch])
+                break
+    json.dump(d, open("known_findings.json", "w"), indent=1)
+    left = [f["key"] for f in d["findings"] if f.get("status") == "fixed" and f.get("commit") in (None, "COMMIT")]
+    if left:
+        print("fixed entries without commit:", left)
